@@ -18,6 +18,9 @@ type Drv struct {
 	StopAfter int  // cancel the run after this many items were delivered in total (0: never)
 	Release   bool // consumers release each item after looking at it
 	Extract   func(a core.Ammo) any
+	Deferred  bool // look at the items only after the run (all of them are in flight at once, as with many instances)
+	CancelAny bool // an extra thread cancels the run at whatever point it is scheduled
+	held      []core.Ammo
 
 	Items      []any // extracted records in delivery order
 	ByConsumer [][]any
@@ -48,6 +51,12 @@ func (d *Drv) Start(ctx context.Context, cancel func()) {
 		err := d.P.Run(ctx, core.ProviderDeps{Log: log, PoolID: "pool"})
 		d.RunErr, d.RunDone = err, true
 	}()
+	if d.CancelAny {
+		go func() {
+			d.Cancelled = true
+			cancel()
+		}()
+	}
 	for c := 0; c < d.Consumers; c++ {
 		c := c
 		go func() {
@@ -80,13 +89,35 @@ func (d *Drv) Start(ctx context.Context, cancel func()) {
 				if d.Cancelled {
 					d.StepsAfterCancel++
 				}
-				rec := d.Extract(a)
+				var rec any
+				if d.Deferred {
+					d.held = append(d.held, a)
+					rec = len(d.held) - 1
+				} else {
+					rec = d.Extract(a)
+				}
 				d.Items = append(d.Items, rec)
 				d.ByConsumer[c] = append(d.ByConsumer[c], rec)
-				if d.Release {
+				if d.Release && !d.Deferred {
 					d.P.Release(a)
 				}
 			}
 		}()
 	}
+}
+
+// Resolve extracts the held items of a deferred run (call after the execution ended).
+func (d *Drv) Resolve() {
+	if !d.Deferred {
+		return
+	}
+	for i := range d.Items {
+		d.Items[i] = d.Extract(d.held[i])
+	}
+	for c := range d.ByConsumer {
+		for i, idx := range d.ByConsumer[c] {
+			d.ByConsumer[c][i] = d.Extract(d.held[idx.(int)])
+		}
+	}
+	d.Deferred = false
 }
